@@ -28,6 +28,7 @@ def run(ctx):
     ctx.each(r16g, ctx, repo)
     ctx.each(r16h, ctx, repo)
     ctx.each(r16i, ctx, repo)
+    ctx.each(r16j, ctx, repo)
     ctx.each(informational, ctx, repo)
 
 
@@ -582,3 +583,29 @@ def r16i(ctx, repo):
     hd = [s for s in own_nodes(wr.node) if isinstance(s, ast.AugAssign) and astq.is_name(s.target, "headings")]
     ok = len(hd) == 1 and isinstance(hd[0].op, ast.Add) and ast.unparse(hd[0].value) == "[float(x) for x in self.tvec]"
     ctx.check(ok, "R16i", wr, hd[0] if hd else wr.node, "year headers follow the fixed columns", "the year headers are not appended after the fixed columns in the order of self.tvec", stmt_text="years-header")
+
+
+def r16j(ctx, repo):
+    ctx.rule("R16j", "the program book is written on a time axis that covers everything that was read: ProgramSet._read_spending collects the year columns of every program table (an accumulator updated inside the loop over tables) and sets self.tvec to their sorted union - not to the years of whichever table was read last; _write_spending gives every table that axis, and the value-table writer only writes values whose year is on its axis")
+    fi = repo.func("programs", "ProgramSet._read_spending")
+    me = K.self_name(fi)
+    st = [s for s in own_nodes(fi.node) if isinstance(s, ast.Assign) and ast.unparse(s.targets[0]) == "%s.tvec" % me]
+    ctx.require(len(st) == 1, "R16j: assignment of self.tvec not found in _read_spending")
+    loops = [l for l in own_nodes(fi.node) if isinstance(l, ast.For) and "tables" in ast.unparse(l.iter)]
+    ctx.require(len(loops) == 1, "R16j: loop over the spending tables not found")
+    l = loops[0]
+    inside = {t.id for s in ast.walk(l) if isinstance(s, ast.Assign) for t in s.targets if isinstance(t, ast.Name)} | {x.id for x in ast.walk(l.target) if isinstance(x, ast.Name)}
+    used = {n.id for n in ast.walk(st[0].value) if isinstance(n, ast.Name)}
+    last = sorted(used & inside)
+    ctx.check(not last and st[0].lineno > l.end_lineno, "R16j", fi, st[0], "self.tvec does not depend on the last table read", "`%s` uses `%s`, which after the loop holds only the last table read: years that appear only in other program tables are not on the ProgramSet's time axis, and every value entered in such a year is silently left out when the program book is written (the re-read program set differs in content and in simulation)" % (norm(st[0])[:80], ", ".join(last)))
+    accs = [n for n in used - inside if any(isinstance(c, ast.Call) and isinstance(c.func, ast.Attribute) and c.func.attr in ("update", "add", "extend", "append") and astq.is_name(c.func.value, n) for c in ast.walk(l))]
+    ok = False
+    for a in accs:
+        ups = [c for c in ast.walk(l) if isinstance(c, ast.Call) and isinstance(c.func, ast.Attribute) and astq.is_name(c.func.value, a) and c.func.attr in ("update", "add", "extend", "append")]
+        ok = ok or any(".tvec" in ast.unparse(c) and not [g for g in branch_guards(enclosing_stmt(c), stop=l)] for c in ups)
+    ctx.check(ok, "R16j", fi, st[0], "year columns of every table are collected in the loop", "no accumulator is updated with each table's year columns (unconditionally, inside the loop over tables) and then used for self.tvec", stmt_text="tvec-accumulated")
+    ctx.check("sorted(" in ast.unparse(st[0].value), "R16j", fi, st[0], "the axis is sorted", "self.tvec is not sorted", stmt_text="tvec-sorted")
+    ws = repo.func("programs", "ProgramSet._write_spending")
+    mk = [c for c in own_nodes(ws.node) if isinstance(c, ast.Call) and ast.unparse(c.func) == "TimeDependentValuesEntry"]
+    ok = bool(mk) and all(len(c.args) >= 2 and ast.unparse(c.args[1]) == "%s.tvec" % K.self_name(ws) or (astq.kwarg(c, "tvec") is not None and ast.unparse(astq.kwarg(c, "tvec")) == "%s.tvec" % K.self_name(ws)) for c in mk)
+    ctx.check(ok, "R16j", ws, enclosing_stmt(mk[0]) if mk else ws.node, "every spending table is written on the ProgramSet's axis", "_write_spending does not create each table on self.tvec", stmt_text="write-axis")
